@@ -118,3 +118,25 @@ if __name__ == "__main__" and sys.argv[1] == "matrix":
     if len(sys.argv) > 4 and sys.argv[4] == "own":
         props = ["own"]
     matrix(repo, names, props, sys.argv[5] if len(sys.argv) > 5 else "quick")
+
+
+def import_matrix(path):
+    """Folds the verdicts of a matrix run (own-property) into the meta.json files."""
+    m = json.load(open(path))
+    for n, row in m.items():
+        mp = os.path.join(SEEDED, n, "meta.json")
+        if not os.path.exists(mp):
+            continue
+        meta = json.load(open(mp))
+        for p, r in row.items():
+            meta.setdefault("check_runs", {}).setdefault("quick", {})[p] = {"rc": r["rc"], "violations": 1 if r["rc"] == 1 else 0,
+                                                                           "first_signature": r.get("sig", ""), "source": "regression run on a scratch copy (FIV_REPO)"}
+        own = meta["property"]
+        if own in row:
+            meta["detected_by_own_property_check"] = row[own]["rc"] == 1
+        json.dump(meta, open(mp, "w"), indent=1)
+    print("imported", len(m))
+
+
+if __name__ == "__main__" and sys.argv[1] == "import-matrix":
+    import_matrix(sys.argv[2])
